@@ -148,6 +148,23 @@ def rule_mergelookup(ctx):
     sl = [x for x in tm.walk(iv) if x.op == "sub" and x.a[1].op == "slice" and x.a[0].op == "call" and call_name(x.a[0]) == "np.unique"]
     pairs = {(tm.show(x.a[1].a[0], 1), tm.show(x.a[1].a[1], 1)) for x in sl}
     yield ob(R, f, "util.merge_labeled_intervals:pairs", pairs == {("None", "-1"), ("1", "None")}, "output intervals pair b[:-1] with b[1:] (%s)" % sorted(pairs))
+    # exact shape: transpose([U[:-1], U[1:]]) with U = np.unique(np.concatenate([x_intervals, y_intervals])) and nothing dropped from U
+    exact = False
+    core = iv
+    if core.op == "call" and call_name(core) == "np.transpose" and core.a[1]:
+        core = core.a[1][0]
+    if core.op == "call" and call_name(core) in ("np.array", "np.asarray") and core.a[1]:
+        core = core.a[1][0]
+    if core.op in ("list", "tuple") and len(core.a) == 2:
+        lo, hi = core.a
+        if lo.op == "sub" and hi.op == "sub" and lo.a[0] is hi.a[0]:
+            U = lo.a[0]
+            isU = U.op == "call" and call_name(U) == "np.unique" and len(U.a[1]) == 1 and U.a[1][0].op == "call" and call_name(U.a[1][0]) == "np.concatenate"
+            if isU:
+                parts = U.a[1][0].a[1][0]
+                isU = parts.op in ("list", "tuple") and [z.a[0] if z.op == "param" else None for z in parts.a] == ["x_intervals", "y_intervals"]
+            exact = isU and tm.show(lo.a[1], 2) == ":-1:" and tm.show(hi.a[1], 2) == "1::"
+    yield ob(R, f, "util.merge_labeled_intervals:refinement-exact", exact, "refined intervals are consecutive pairs of *all* distinct boundaries of both inputs" if exact else "refined intervals are %s: boundaries are filtered or transformed before pairing, so an input boundary can disappear from the refinement" % tm.show(iv, 4))
     for side, lab in (("x", xl), ("y", yl)):
         good = False
         why = "lookup not recognised"
@@ -195,6 +212,36 @@ ARRAY_MAKERS = {"np.array", "np.asarray", "np.insert", "np.append", "np.concaten
 LABEL_HELPERS = ["util.adjust_intervals", "util.adjust_events", "util.merge_labeled_intervals", "util.interpolate_intervals", "util.intervals_to_samples", "util.sort_labeled_intervals", "hierarchy._align_intervals", "util.index_labels"]
 
 
+def rule_padspan(ctx):
+    """adjust_intervals pads the gap between the requested bound and the *cropped, clipped* annotation: the test and
+    the padded row use min/max of the array after cropping, so the result always starts at t_min and ends at t_max."""
+    R = "C13.PADSPAN"
+    f = ctx.program.func("util.adjust_intervals", R)
+    s = ctx.S.get(f.qual)
+    for bound, red, clip in (("t_min", "np.min", "np.maximum"), ("t_max", "np.max", "np.minimum")):
+        bp = tm.param(bound)
+        tests = []
+        for st in s.by_kind("cmp"):
+            t = st.d.get("term")
+            if t is None or t.op != "cmp" or t.a[0] not in ("<", "<="):
+                continue
+            sides = [t.a[1], t.a[2]]
+            if not any(z is bp for z in sides):
+                continue
+            other = [z for z in sides if z is not bp][0]
+            if other.op == "call" and call_name(other) == red and other.a[1]:
+                tests.append((st, t, other))
+        need(len(tests) >= 1, R, "adjust_intervals: padding test for %s not found" % bound)
+        for k, (st, t, red_t) in enumerate(tests[:1]):
+            x = red_t.a[1][0]
+            clipped = x.op == "call" and call_name(x) == clip and any(z is bp for z in x.a[1])
+            strict = t.a[0] == "<"
+            yield ob(R, f, "util.adjust_intervals:%s-pad-test" % bound, clipped and strict, "a padding row is added iff the cropped and clipped annotation does not reach %s" % bound if clipped and strict else "the padding decision for %s looks at %s, not at the annotation after cropping/clipping: with a gap at %s the result no longer starts/ends at the bound" % (bound, tm.show(x, 3), bound), node=st.node)
+            # the padded row spans [bound, extremum of the clipped array]
+            rows = [c for c in s.calls() if c.callee == "np.vstack" and any(z is bp for z in tm.walk(c.term)) and any(zz is red_t for zz in tm.walk(c.term))]
+            yield ob(R, f, "util.adjust_intervals:%s-pad-row" % bound, len(rows) >= 1, "the padding row joins %s to that same extremum" % bound if rows else "no padding row [%s, extremum of the clipped annotation] found" % bound)
+
+
 def rule_labellist(ctx, rule="C13.LABELLIST"):
     """Label sequences stay Python lists of the caller's own objects: a NumPy string array has a fixed width and truncates
     longer labels (a filler such as '__T_MIN' inserted into an array of short labels becomes '__T_M')."""
@@ -231,6 +278,7 @@ def _strip_len(t):
 
 
 RULES = [
+    ("C13.PADSPAN", 4, rule_padspan),
     ("C13.LABELLIST", 7, rule_labellist),
     ("C13.CROPSTRICT", 7, rule_cropstrict),
     ("C13.SIDES", 6, rule_sides),
